@@ -240,7 +240,16 @@ impl<Left: Executor, Right: Executor> Executor for NestedLoopJoin<Left, Right> {
                 self.unmatched_right_idx += 1;
 
                 if !self.right_matched[idx] {
-                    let row = nulls_with_right(&self.right_buffer[idx], self.left_cols);
+                    // `left_cols` is learned from the first left row; an empty left input never sets
+                    // it, and its width is then what the output has beyond the right row.
+                    let left_cols = if self.left_cols == 0 {
+                        self.output_schema
+                            .num_columns()
+                            .saturating_sub(self.right_buffer[idx].len())
+                    } else {
+                        self.left_cols
+                    };
+                    let row = nulls_with_right(&self.right_buffer[idx], left_cols);
                     self.stats.rows_produced += 1;
                     return Ok(Some(row));
                 }
